@@ -10,12 +10,18 @@ fn has_tags(c: &Cell) -> bool {
     }
 }
 
-fn observe(src: &str) -> (Value, bool) {
+fn observe(src: &str, keeps: bool) -> (Value, bool) {
     let mut xs = fresh();
     let r = guarded(|| xs.eval(src));
     let out = xs.read_stdout().unwrap_or_default();
     match r {
         Outcome::Panic(_) => (json!({"res": "panic"}), false),
+        Outcome::Done(r) if keeps => {
+            // a carried value: what arrives, tags included (variables the carrier phrase defines are not compared)
+            let st = visible_stack(&xs);
+            (json!({"res": match &r { Ok(()) => "ok".to_string(), Err(e) => err_class(e).to_string() },
+                    "ds": st.iter().map(cell_json).collect::<Vec<_>>(), "out": out}), false)
+        }
         Outcome::Done(r) => {
             let st = visible_stack(&xs);
             let top_tagged = st.last().map(has_tags).unwrap_or(false);
@@ -44,8 +50,9 @@ pub fn cmd_record(args: &[String]) -> i32 {
         let join = |k: &str| c[k].as_array().map(|a| a.iter().map(|x| x.as_str().unwrap_or("")).collect::<Vec<_>>().join(" ")).unwrap_or_default();
         let plain = format!("{} {}", join("plain"), w);
         let tagged = format!("{} {}", join("tagged"), w);
-        let (o1, t1) = observe(&plain);
-        let (o2, t2) = observe(&tagged);
+        let keeps = c["cls"] == "keeps";
+        let (o1, t1) = observe(&plain, keeps);
+        let (o2, t2) = observe(&tagged, keeps);
         if o1["res"] == "ok" {
             ok_pairs += 1;
         }
